@@ -2,14 +2,23 @@
 
 Decides (a) by finite typestate abstract interpretation of VBSClusteringManager - every public method interpreted over
 the abstraction {enum member, None, non-None} of its state fields, unknown tests going both ways, least fixpoint over
-all call sequences - that on every reachable state: leader <=> own cluster present, passive <=> joined id, leader id and
-an armed leader-lost timer present, no assert can fail, and should_transmit_vam() is False only while passive or idle;
-(b) by guard / provenance rules: which timer constant ends which phase, that every phase start stamps its timer, that
-only the leader's VAMs refresh the leader-lost timer, that leader loss and a leader's break-up lead to stand-alone,
-cluster id in 1..255 and cardinality >= 1 at every store; (c) that the service drives the machine: update() on every
-generation cycle before the gate, on_received_vam for every decoded VAM, containers attached under their VAM keys;
-(d) the cluster containers against the VAM ASN.1 module, writer and reader side (shared engine with C11).
-Does not decide durations as elapsed time nor multi-station closed-loop behaviour.
+all call sequences, exception exits included - that on every reachable state: leader <=> own cluster present, passive
+<=> joined id, leader id and an armed leader-lost timer present, every join / leave phase has its start time set, no assert can fail (state), and should_transmit_vam()
+is False only while passive or idle and changes no state (gate); (b) by guard / provenance rules: the five timer
+constants = TS 103 300-3 Table 14; which constant ends which phase - each time-driven transition sits under its
+sub-state test and `now - <its stamp> >= <its constant>`, established at the block head or on every path to it, and
+depends on no unrelated sub-state; every phase entry stamps its timer with a clock reading in the same block; update()
+hands the clock to the handler of exactly the current state (timers); only VAMs of the joined cluster's leader refresh
+the leader-lost timer, update() can take passive to stand-alone, _do_leave_to_standalone is straight-line and ends
+stand-alone, a break-up received while passive leads there (unless reason = reception of CPM) and the own leader's is
+accepted (recovery); cluster id drawn from randint within 1..255 and taken from the generator only when not None,
+cardinality lower bound >= 1 at every store, augmented store, construction and default (state); (c) that the service
+drives the machine (wiring): every path to a transmission site passes `no manager` or `should_transmit_vam() true`,
+that gate being the only clustering-dependent early exit; update() on every generation cycle before the gate;
+on_received_vam for every decoded VAM, processed under the manager's lock; the two cluster containers attached under their
+VAM keys, when not None, to the dictionary that is encoded; (d) the cluster containers against the VAM ASN.1 module,
+writer and reader side, leave / break-up reason enumerators and profile bit masks (coder, shared engine with C11).
+Does not decide durations as elapsed time nor multi-station closed-loop behaviour through the real coder.
 """
 from __future__ import annotations
 
